@@ -269,8 +269,11 @@ def floorset_data(inst, emb, salt=0):
         if (bi + salt) % 2:
             v = v[::-1]                 # either orientation
         k = (bi + salt) % len(v)
-        polys.append(v[k:] + v[:k])
-    width = max(len(v) for v in polys) + 1
+        v = v[k:] + v[:k]
+        # with a density the perimeters are measured (compute_perimeter sums consecutive edges): the polygons are then given
+        # closed (first vertex repeated) and, all of the same shape, without padding rows
+        polys.append(v + [v[0]] if inst.get("dens") else v)
+    width = max(len(v) for v in polys) + (0 if inst.get("dens") else 1)
     vb = np.full((len(polys), width, 2), -1.0)
     for i, v in enumerate(polys):
         vb[i, :len(v)] = [(emb.coord(x), emb.coord(y)) for x, y in v]
@@ -296,7 +299,8 @@ def run_floorset(case, emb, pb):
     from frame.die.die import Die
     from frame.netlist.netlist import Netlist
     from tools.floorset_parser.floor_set_manager.manager import FloorSetInstance
-    fs = FloorSetInstance(floorset_data(case["src"], emb, case.get("salt", 0)), None, False)
+    dens = case["src"].get("dens")
+    fs = FloorSetInstance(floorset_data(case["src"], emb, case.get("salt", 0)), dens[0] / dens[1] if dens else None, False)
     pre = _fs_state(fs)
     if case["prod"] == "floorset_fpef":
         t1 = fs.write_yaml_FPEF()
@@ -310,7 +314,9 @@ def run_floorset(case, emb, pb):
         acc, back, why = _read(Die, t1, lambda x: obs_die(x, pb), NO_DIE)
     d1, d2 = pair(t1, t2)
     pre, post = pair(pre, post)
-    return {"pre": pre, "post": post, "d1": d1, "d2": d2, "accepted": acc, "back": back, "why": why}
+    # the scaling factor of a density is a length: the expected weights depend on the unit of the embedding
+    unit = [emb.step.numerator, emb.step.denominator] if dens else [1, 1]
+    return {"pre": pre, "post": post, "d1": d1, "d2": d2, "accepted": acc, "back": back, "why": why, "unit": unit}
 
 
 def run_rect_netlist(case, emb, pb):
@@ -500,7 +506,9 @@ def embeddings_for(case, k):
         return [pool[k % len(pool)]]
     if p == "netgen":
         return ["flt"]                                # the generator has no coordinates (every area is 1)
-    if p in ("die", "floorset_fpef", "floorset_dief"):
+    if p.startswith("floorset") and case["src"].get("dens"):
+        pool = ["int", "flt", "half", "dec", "third"]  # scaled weights are lengths: units in which 1/K still resolves them
+    elif p in ("die", "floorset_fpef", "floorset_dief"):
         pool = ORIGIN0                                # the die starts at the origin
     elif p == "legal":
         pool = LEGAL_EMBS + SMALL
@@ -573,10 +581,20 @@ def random_cases(rng: random.Random, n: int) -> list[dict]:
                 blocks.append({"kind": rng.choice(["soft", "hard", "fixed"]), "area": sum((t[2] - t[0]) * (t[3] - t[1]) for t in sh),
                                "shape": sh})
             pins = [[4 * nb, 6]] + [[rng.randint(0, 4 * nb), rng.choice([0, 6])] for _p in range(rng.randint(1, 3))]
-            ws = [[1, 1], [5, 2], [3, 1], [1, 2]]
+            ws = [[1, 1], [5, 2], [3, 1], [1, 2], [0, 1]]        # rows of weight 0 in both tables (-> nets of weight 1)
             b2b = [[a, b, rng.choice(ws)] for a in range(nb) for b in range(nb) if a != b and rng.random() < 0.3]
             p2b = [[p, rng.randrange(nb), rng.choice(ws)] for p in range(len(pins))]
-            inst = {"pins": pins, "blocks": blocks, "b2b": b2b, "p2b": p2b}
+            p2b[0][2] = rng.choice(ws[:4])                       # (some weight stays positive)
+            if rng.random() < 0.5:
+                p2b.append([rng.randrange(len(pins)), rng.randrange(nb), [0, 1]])
+            dens = []
+            if i % 12 == 3:                                      # density scaling: blocks of one shape (no padding rows)
+                s0 = rng.choice(shapes)
+                for b, blk in enumerate(blocks):
+                    blk["shape"] = [[t[0] + 4 * b, t[1], t[2] + 4 * b, t[3]] for t in s0]
+                    blk["area"] = sum((t[2] - t[0]) * (t[3] - t[1]) for t in s0)
+                dens = rng.choice([[1, 2], [1, 4], [1, 1]])
+            inst = {"pins": pins, "blocks": blocks, "b2b": b2b, "p2b": p2b, "dens": dens, "unit": [1, 1]}
             cases.append({"prod": "floorset_fpef", "src": inst, "op": "none", "salt": i})
             cases.append({"prod": "floorset_dief", "src": inst, "op": "none", "salt": i})
         else:               # netlists with more modules and nets for the rect / legaliser stages
@@ -627,6 +645,8 @@ def features_of(case, ev, embs):
         f["fixed_terminal"] = any(m["kind"][1] and m["kind"][2] for m in net["mods"])
     if case["prod"].startswith("floorset"):
         f["weighted"] = any(e[2] != [1, 1] for e in src["b2b"] + src["p2b"])
+        f["zero_weight"] = any(e[2][0] == 0 for e in src["b2b"] + src["p2b"])
+        f["density"] = bool(src.get("dens"))
     return f
 
 
@@ -671,7 +691,7 @@ def decide(ctx: Ctx, cases: list[dict]):
                 continue
             s["distinct"] += 1
             s["accepted"] += o["accepted"]
-            ev = {"prod": c["prod"], "src": c["src"], "op": c["op"]}
+            ev = {"prod": c["prod"], "src": dict(c["src"], unit=o["unit"]) if "unit" in o else c["src"], "op": c["op"]}
             ev.update({k: o[k] for k in ("pre", "post", "d1", "d2", "accepted", "back")})
             events.append((ev, c, embs, o.get("why", "")))
     traces = []
@@ -766,7 +786,9 @@ def run(ctx: Ctx) -> int:
         "generator sizes outside Defined (ring-star 1, one-net 1) are outside the quantifier and are not run",
         "same-path histories (write, read, change the object, write again, read again; 1 path quick, 2 paths thorough) run inside one process "
         "through the file-name interface of every producer that has one (die, allocation, netgen -o, FloorSet FPEF, the rect stage's input and output files)",
-        "FloorSet: density None (weights unscaled), positive weights, terminals_as_modules False, pins spanning a die of positive size",
+        "FloorSet: connection rows of weight 0 in both tables (block-to-block and pin-to-block) and of positive weight, some weight positive; "
+        "density None and a density (weights scaled; then blocks of one shape given as closed vertex lists without padding rows); "
+        "terminals_as_modules False, pins spanning a die of positive size",
         "legaliser models are built as the stage builds them and not solved: the emitted netlist carries the initial rectangles",
         "same design = names, kinds (hard, fixed, terminal, flip), total area of soft modules, centre of modules without rectangles, "
         "rectangle geometry, net members and weights; region tags of module rectangles and listing order are model conformance only",
